@@ -86,6 +86,7 @@ type relCase struct {
 	R      yRel    `json:"r"`
 	Schema []yType `json:"schema"`
 	Filler bool    `json:"filler"` // the schema is listed together with relFiller
+	Wide   bool    `json:"wide"`   // ... together with relWide: a listing of more than twenty entries
 }
 
 func permutations(n int) [][]int {
@@ -118,7 +119,24 @@ var relFiller = yType{Name: symOf("gh"), Rels: []yRel{
 	{FT: symOf("gh"), FN: symOf("d"), To1: false, TT: symOf("gh"), TN: symName{}},
 	{FT: symOf("gh"), FN: symOf("e"), To1: true, TT: symOf("gh"), TN: symName{}}}}
 
+// relWide: three more types with seven one-way relationships each, the same seven names on every type
+// (a long listing whose order by name does not follow its order by type)
+var relWide = func() []yType {
+	var out []yType
+	for _, tn := range []string{"gh", "hg", "gg"} {
+		t := yType{Name: symOf(tn)}
+		for i, fn := range []string{"h", "f", "d", "g", "e", "df", "ed"} {
+			t.Rels = append(t.Rels, yRel{FT: symOf(tn), FN: symOf(fn), To1: i%2 == 0, TT: symOf(tn), TN: symName{}})
+		}
+		out = append(out, t)
+	}
+	return out
+}()
+
 func runRelCase(c relCase) relEvent {
+	if c.Wide {
+		c.Schema = append(append([]yType{}, c.Schema...), relWide...)
+	}
 	if c.Filler {
 		c.Schema = append(append([]yType{}, c.Schema...), relFiller)
 	}
@@ -387,6 +405,10 @@ func relMain(args []string) {
 				}
 				c.Filler = true
 				stt.class("rels:longer-listing")
+			}
+			if c.Filler && si%9 == 0 && len(s) <= 1 {
+				c.Filler, c.Wide = false, true
+				stt.class("rels:wide-listing")
 			}
 			ev := runRelCase(c)
 			stt.Calls += 2 * len(ev.Perms)
